@@ -6,6 +6,7 @@ import Hertz.Proofs.NoFaultPath
 import Hertz.Proofs.NoFaultLine
 import Hertz.Proofs.ErrResp
 import Hertz.Proofs.Fs
+import Hertz.Model.Http1.RespRead
 /-!
 # C03 — no peer-controlled input can crash the process; bad input gets a clean 4xx
 
@@ -47,11 +48,10 @@ TODO-OPEN
   vacuous.  Re-stated and proved so far: `utils.NextLine` + the request-line parser (`request_line_total`) and the response
   status-line parser (`response_status_line_total`).  Not yet: the header scanner
   (`s.b[:n]`, `b[n+1:]`, obs-fold compaction `normalizeHeaderValue`), `ParseChunkSize`/`readBodyChunked` (`buf[:n]`, the
-  `round2` allocation — known finding C03-huge-chunk-alloc on the client side), `readBodyFixedSize`, `parseTrailer`
-  (only `IsBadTrailer` is covered).  A `response_read_total` will carry the known finding C03-huge-chunk-alloc as its stated
-  exception, on BOTH routes into `appendBodyFixedSize` (no body-size limit): a chunk-size line ≥ 2^47 and a `Content-Length`
-  ≥ 2^47 (panic: makeslice); between about 2^38 and 2^47 the process dies with a fatal out-of-memory error inside
-  `standard.Conn.Peek`, which is not a panic and cannot be recovered.  Their tie is the sampled one (ops `serve`, `reqhead`,
+  bounded-step reads of `appendBodyFixedSize`), `readBodyFixedSize`, `parseTrailer`
+  (only `IsBadTrailer` is covered).  The allocation by peer-declared size in `appendBodyFixedSize` (former known finding
+  C03-huge-chunk-alloc, both routes) is repaired in /repo 6e06925: a future `response_read_total` needs no exception; the
+  former witnesses are a regression theorem (`huge_declared_size_repaired`) and regression cases of the generator.  Their tie is the sampled one (ops `serve`, `reqhead`,
   `respread`, `redir` under `recover`).
 * `http_date_parse_total`: `bytesconv.ParseHTTPDate` is `time.Parse(time.RFC1123, …)`; hertz itself indexes nothing.  The
   `time` package is trusted; op `nfdate` runs it on hostile input and compares with `Model/HttpDate.lean`.
@@ -235,5 +235,28 @@ theorem error_response_wellformed (cfg : Cfg) (e : End) (s : Bytes) (st : Nat) (
 by junk, decode to status 400 with the junk left over -/
 example : (Spec.Resp.decodeOne false (errorResponse 400 [104,101,114,116,122] none ++ [1, 2, 3])).map
     (fun r => (r.1.status, r.1.body.length, r.2)) = some (400, 26, [1, 2, 3]) := by decide +kernel
+
+/-! ## Regression: peer-declared body sizes (former known finding C03-huge-chunk-alloc, repaired in /repo 6e06925) -/
+
+/-- the former witnesses, both routes into `appendBodyFixedSize`: `Content-Length` 2^62, 2^63−1, 2^50, 2^49, 2^40 (the last
+one used to kill the process with an out-of-memory fatal error) and chunk-size lines `fffffffffffffff` (2^60−1) and
+`10000000000` (2^40), each followed by two body bytes -/
+def hugeSizeWitnesses : List Bytes :=
+  [[72,84,84,80,47,49,46,49,32,50,48,48,32,79,75,13,10,67,111,110,116,101,110,116,45,76,101,110,103,116,104,58,32,52,54,49,49,54,56,54,48,49,56,52,50,55,51,56,55,57,48,52,13,10,13,10,97,98],
+   [72,84,84,80,47,49,46,49,32,50,48,48,32,79,75,13,10,67,111,110,116,101,110,116,45,76,101,110,103,116,104,58,32,57,50,50,51,51,55,50,48,51,54,56,53,52,55,55,53,56,48,55,13,10,13,10,97,98],
+   [72,84,84,80,47,49,46,49,32,50,48,48,32,79,75,13,10,67,111,110,116,101,110,116,45,76,101,110,103,116,104,58,32,49,49,50,53,56,57,57,57,48,54,56,52,50,54,50,52,13,10,13,10,97,98],
+   [72,84,84,80,47,49,46,49,32,50,48,48,32,79,75,13,10,67,111,110,116,101,110,116,45,76,101,110,103,116,104,58,32,53,54,50,57,52,57,57,53,51,52,50,49,51,49,50,13,10,13,10,97,98],
+   [72,84,84,80,47,49,46,49,32,50,48,48,32,79,75,13,10,67,111,110,116,101,110,116,45,76,101,110,103,116,104,58,32,49,48,57,57,53,49,49,54,50,55,55,55,54,13,10,13,10,97,98],
+   [72,84,84,80,47,49,46,49,32,50,48,48,32,79,75,13,10,84,114,97,110,115,102,101,114,45,69,110,99,111,100,105,110,103,58,32,99,104,117,110,107,101,100,13,10,13,10,102,102,102,102,102,102,102,102,102,102,102,102,102,102,102,13,10,97,98,13,10],
+   [72,84,84,80,47,49,46,49,32,50,48,48,32,79,75,13,10,84,114,97,110,115,102,101,114,45,69,110,99,111,100,105,110,103,58,32,99,104,117,110,107,101,100,13,10,13,10,49,48,48,48,48,48,48,48,48,48,48,13,10,97,98,13,10]]
+
+/-- Regression theorem (was: excluded class `huge-chunk-size-alloc`): on every former witness, with no body-size limit, the
+client-reader model answers "unexpected EOF" when the peer closes and "need more / time-out" when it stalls — the verdict the
+repaired code now gives too (the correspondence check demands it; there is no exception class any more). -/
+theorem huge_declared_size_repaired :
+    hugeSizeWitnesses.all (fun w =>
+      (match H1.RespRead.readResponse false 0 .eof w with | .error .unexpectedEOF => true | _ => false) &&
+      (match H1.RespRead.readResponse false 0 .stall w with | .error .timeout => true | _ => false)) = true := by
+  decide +kernel
 
 end Hertz.Props.C03
